@@ -358,6 +358,26 @@ def render_source(sc):
                 args.append(f"{key}={names(t[key])}")
         return args
 
+    decor = sc.get("decor") if style == "assign" else None      # callbacks / an event given by decorators
+    decor_cbs = (decor or {}).get("cbs", [])
+    decor_ev = (decor or {}).get("event")
+
+    def strip_decor(j, t):
+        if not decor:
+            return t
+        t = dict(t, before=list(t["before"]), on=list(t["on"]), after=list(t["after"]), val=list(t["val"]), cond=list(t["cond"]))
+        for j_, g, nm in decor_cbs:
+            if j_ == j:
+                if g in ("cond", "unless"):
+                    idx = max(i for i, (n_, b_) in enumerate(t["cond"]) if list(n_) == list(nm))
+                else:
+                    idx = max(i for i, n_ in enumerate(t[g]) if list(n_) == list(nm))
+                del t["cond" if g in ("cond", "unless") else g][idx]
+        if decor_ev and t["ev"] == [decor_ev[0]]:
+            idx = max(i for i, n_ in enumerate(t["on"]) if list(n_) == list(decor_ev[1]))
+            del t["on"][idx]
+        return t
+
     def same_kw(t, u):
         return all(t[k] == u[k] for k in ("ev", "int", "val", "cond", "before", "on", "after"))
 
@@ -376,7 +396,7 @@ def render_source(sc):
             while (j + len(group) < len(trs) and trs[j + len(group)]["t"] == t["t"] and same_kw(trs[j + len(group)], t)
                    and trs[j + len(group)]["s"] not in [g["s"] for g in group]):
                 group.append(trs[j + len(group)])
-        kw = kwargs_of(t)
+        kw = kwargs_of(strip_decor(j, t))
         heads.append(j)
         if mixed is not None:
             for i in range(1, len(group)):
@@ -406,7 +426,21 @@ def render_source(sc):
     if style == "assign":
         # event attributes in index order: `go = tr0 | tr3`, then drop the helper names
         for e in used_events:
-            body.append(f"    {evname(e)} = " + " | ".join(f"tr{j}" for j, t in enumerate(trs) if e in t["ev"]))
+            tl_ = " | ".join(f"tr{j}" for j, t in enumerate(trs) if e in t["ev"])
+            if decor_ev and decor_ev[0] == e:
+                # the event is declared by decorating its `on` action with the transition list
+                p_, (kind_, k_) = 0, decor_ev[1]
+                body.append(f"    @({tl_})")
+                body.append(f"    def {evname(e)}(self, **kw): return _cb({p_}, {kind_}, {k_}, False, kw)")
+            else:
+                body.append(f"    {evname(e)} = {tl_}")
+        by_name = {}
+        for j_, g, nm in decor_cbs:
+            by_name.setdefault(tuple(nm), []).append((j_, g))
+        for nm, uses in by_name.items():
+            for j_, g in uses:
+                body.append(f"    @tr{j_}.{'validators' if g == 'val' else g}")
+            body.append(f"    def {cbname(list(nm))}(self, **kw): return _cb(0, {nm[0]}, {nm[1]}, {nm in gn}, kw)")
         body.append("    del " + ", ".join(f"tr{j}" for j in range(len(trs))))
     elif style == "event_ctor":
         imports.add("Event")
@@ -432,7 +466,8 @@ def render_source(sc):
     else:
         out.append("class M(StateMachine):")
         out += body
-    out += methods(0, sc["provs"][0])
+    decor_defined = {tuple(nm) for _j, _g, nm in decor_cbs} | ({tuple(decor_ev[1])} if decor_ev else set())
+    out += methods(0, [nm for nm in sc["provs"][0] if tuple(nm) not in decor_defined])
     if inst:
         out.append("    def __init__(self, *a, **k):")
         for name in inst:
